@@ -771,7 +771,7 @@ func TestVerifC46Sequential(t *testing.T) {
 	defer c.Finish()
 	c.Rule("random histories over up to 3 wallets sharing one master derivation key: generate (incl. refused mnemonic request), import of fresh keys / of keys already held / of upcoming and passed members of the derived sequence, delete, export, export MDK, multisig import/delete, Sign*/MultisigSign*, rename, re-open (new handle, new driver instance), restore from the exported MDK, CheckPassword/Init - about half of the password-taking calls with a wrong password (suffix, prefix, blank, bit flip, unrelated); after every call the real wallet is compared with the reference {highest index, key set, multisig set}; at the end every key is exported, two more keys are generated per wallet and a fresh wallet restored from the MDK must regenerate D[1..]; distinct = (wallet count, highest index, key count, deleted/multisig present)")
 	c.Assume("the derived sequence D is taken from a pristine wallet of the same driver created from the same master derivation key (black box); scrypt cost lowered through the driver's own allow_unsafe_scrypt configuration as the upstream e2e fixtures do")
-	ncase := c.N(150, 4000)
+	ncase := c.N(150, 2500)
 	tot := map[string]int{}
 	for i := 0; i < ncase && c.Violations() < 20; i++ {
 		r := c.Rand(46, uint64(i))
@@ -823,6 +823,9 @@ func TestVerifC46Sequential(t *testing.T) {
 	if n := tot["rename_wrong_password_accepted"]; n > 0 {
 		c.Observation("RenameWallet succeeded %d times with a wrong password (not part of the property statement)", n)
 	}
+	if c.Violations() > 0 {
+		return // exploration was cut short; the verdict is the violation, not vacuity
+	}
 	c.Require("generates", int64(ncase))
 	c.Require("generates_skipping_imported", int64(ncase/4))
 	c.Require("imports_of_upcoming_derived", int64(ncase/2))
@@ -849,7 +852,7 @@ func TestVerifC46Concurrent(t *testing.T) {
 	defer c.Finish()
 	c.Rule("per case one wallet with a few pre-imported derived keys; 4 goroutines (2 sharing a handle, 2 with own handles) each run 12-30 calls of GenerateKey / ImportKey(fresh) / ImportKey(D[j] for upcoming j) chosen by per-goroutine PRNG streams; schedule-independent invariants (a)-(f) checked after the join; distinct = (generated count, imported-derived count, max index)")
 	c.Assume("failed calls are accepted whatever the error; the goroutine interleaving is not controlled (invariants are schedule independent), so counters may vary slightly between runs of one seed")
-	ncase := c.N(25, 400)
+	ncase := c.N(20, 150)
 	for i := 0; i < ncase && c.Violations() < 20; i++ {
 		r := c.Rand(47, uint64(i))
 		mdk := c46MDK(r)
@@ -1100,6 +1103,9 @@ func TestVerifC46Concurrent(t *testing.T) {
 				c.Sample(map[string]any{"case": i, "calls": 4 * perG, "successful_generates": ngen, "successful_imports_of_derived": nimpD, "failed_calls": failed, "max_generated_index": maxGen, "listed": len(listed)})
 			}
 		})
+	}
+	if c.Violations() > 0 {
+		return
 	}
 	c.Require("concurrent_successful_generates", int64(ncase*10))
 	c.Require("concurrent_successful_imports_of_derived", int64(ncase))
